@@ -293,12 +293,12 @@ def run(ctx, res):
                 "event of real network scenarios). non-trivial = history with >= 2 metadata responses; distinct by content hash.")
     hs = corpus_histories()
     res.count("corpus", len(hs))
-    n = ctx.scale(2500, 60000)
+    n = ctx.scale(2500, 150000)
     for _ in range(n):
         hs.append(gen_history(ctx.rng, ctx.rng.randrange(1, ctx.scale(14, 30))))
     check_direct(ctx, res, hs)
     from harness.props import c07
-    c07.net_scenarios(ctx, res, ctx.scale(1200, 30000), focus="c08")
+    c07.net_scenarios(ctx, res, ctx.scale(1200, 80000), focus="c08")
 
 
 def search(ctx, res, broken):
